@@ -1,4 +1,5 @@
 """C16 -- generated OpenAPI document is closed and matches the requested CRUD."""
+import ast
 import json
 import os
 import re
@@ -199,9 +200,9 @@ print("@@" + json.dumps(res))
 '''
 
 
-def gen_bulk_case(rng):
+def gen_bulk_case(rng, names=None):
     k = rng.randint(1, 3)
-    names = rng.sample(NAMES1 + NAMES2[:2], k)
+    names = names or rng.sample(NAMES1 + NAMES2[:2], k)
     src = ["from sqlalchemy import Boolean, Column, Float, Integer, String", "from sqlalchemy.orm import declarative_base", "",
            "Base = declarative_base()", "", ""]
     models = []
@@ -249,6 +250,24 @@ def bulk_worker(arg):
         shutil.rmtree(d, ignore_errors=True)
 
 
+def bulk_key_expr():
+    """source text of the component key in cdd/compound/openapi/gen_openapi.py:openapi_bulk -- the first element of the pair built by
+    `lambda table: (<key>, cdd.json_schema.emit.json_schema(table))`; None when that shape is gone (fail closed)"""
+    try:
+        tree = ast.parse(open(os.path.join(REPO, "cdd", "compound", "openapi", "gen_openapi.py")).read())
+    except Exception:  # noqa
+        return None
+    for node in ast.walk(tree):
+        if isinstance(node, ast.Lambda) and [a.arg for a in node.args.args] == ["table"] and isinstance(node.body, ast.Tuple) \
+                and len(node.body.elts) == 2 and "json_schema" in ast.unparse(node.body.elts[1]):
+            expr = node.body.elts[0]
+            names = {n.id for n in ast.walk(expr) if isinstance(n, ast.Name)}
+            calls = [n for n in ast.walk(expr) if isinstance(n, ast.Call)]
+            if names == {"table"} and all(isinstance(c.func, ast.Attribute) for c in calls):     # a method chain on table[...] only
+                return ast.unparse(expr)
+    return None
+
+
 def run(ctx):
     status = coqbuild.prove("C16", THEOREMS)
     rng = ctx.rng
@@ -268,12 +287,32 @@ def run(ctx):
             ctx.item(it["cls"], {"stage": "implementation-side property on cdd.compound.openapi.emit.openapi",
                                  "clause": it["cls"].split("/")[-1], "input": it["input"], "detail": it["detail"]})
     # bulk_component_key correspondence
-    keys_in = NAMES1 + NAMES2 + ["a_tbl_b_tbl", "x", "", "already Title", "mixedCase_tbl"]
+    # the model's key derivation against the expression openapi_bulk itself uses (read from the current source and evaluated here)
+    keys_in = NAMES1 + NAMES2 + ["a_tbl_b_tbl", "x", "", "already Title", "mixedCase_tbl", "widget", "wallet_tbl", "job_tbl", "label", "bill", "cart_tbl", "t_tbl",
+                                 "tbl", "_tbl", "tbl_tbl", "sub_", "product_tbl"]
     km = call_many("bulk_component_key", keys_in)
-    kbad = [(a, b, a.replace("_tbl", "", 1).title()) for a, b in zip(keys_in, km) if b != a.replace("_tbl", "", 1).title()]
+    key_expr = bulk_key_expr()
+    if key_expr is None:
+        kbad = [("<source>", "the component-key expression of openapi_bulk (lambda table: (<key>, json_schema(table))) was not found", None)]
+    else:
+        kbad = []
+        for a, b in zip(keys_in, km):
+            try:
+                got = eval(key_expr, {"__builtins__": {}}, {"table": {"name": a}})   # noqa: the fragment is a str method chain of the analysed source
+            except Exception as e:  # noqa
+                got = "raised " + type(e).__name__
+            if b != got:
+                kbad.append({"table_name": a, "model": b, "source_expression": key_expr, "value_of_the_source_expression": got})
     # bulk runs
     nb = 16 if ctx.quick else 120
     bulk_jobs = [(rng.randrange(1 << 20), gen_bulk_case(rng)) for _ in range(nb)]
+    # the key derivation disagrees with the model on some table names: look for the failing document with exactly those models
+    for kb in kbad[:4]:
+        nm = kb.get("table_name") if isinstance(kb, dict) else None
+        if nm and nm.isidentifier():
+            j = gen_bulk_case(rng, names=[nm])
+            j["models"][0]["crud"] = "CRD"
+            bulk_jobs.append((0, j))
     # one single-model job with all three operations, under many hash seeds (the append order of missing routes)
     for _ in range(2 if ctx.quick else 6):
         j = gen_bulk_case(rng)
